@@ -563,6 +563,9 @@ def extract_unescape(model, modname='zincparser', fnname='_unescape'):
         raise Unsupported('%s: unicode-escape body is %s' % (fnname, ub))
     sp.hex_from, sp.hex_to, sp.base, sp.uni_consume = int(mm.group(1)), int(mm.group(2)), int(mm.group(3)), int(mc.group(1))
     sp.uni_node = uni
+    # loop control: every branch goes on with the rest of the text (`continue` or falling to the loop end);
+    # a `break`/`return` inside the scanning loop drops the remainder of the string
+    sp.loop_exits = [n for n in ast.walk(loops[0]) if isinstance(n, (ast.Break, ast.Return))]
     # simple escapes
     sp.simple = {}
     sp.uri_keep = set()
